@@ -153,6 +153,29 @@ impl<'a> FullnameSerializer<'a> {
         }
     }
 
+    // the namespace an unprefixed element name is in at this point
+    pub(crate) fn default_namespace(&self) -> NamespaceId {
+        self.top()
+            .all_namespaces
+            .iter()
+            .rev()
+            .find(|(p, _)| *p == self.xot.empty_prefix())
+            .map(|(_, n)| *n)
+            .unwrap_or(self.xot.no_namespace_id)
+    }
+
+    // the fullname for XML output. Like element_fullname, but a name in no
+    // namespace cannot be written where a default namespace is in scope: it
+    // would be read back as a name in that namespace.
+    pub(crate) fn xml_element_fullname(&self, name_id: NameId) -> Result<Cow<'a, str>, Error> {
+        if self.xot.namespace_for_name(name_id) == self.xot.no_namespace_id
+            && self.default_namespace() != self.xot.no_namespace_id
+        {
+            return Err(Error::MissingPrefix(String::new()));
+        }
+        self.element_fullname(name_id)
+    }
+
     // get the fullname. if None, we cannot generate the fullname due to a missing
     // prefix
     pub(crate) fn element_fullname(&self, name_id: NameId) -> Result<Cow<'a, str>, Error> {
